@@ -7,6 +7,17 @@ def c12Status (s : String) : Option Nat :=
   | some n => if 100 ≤ n ∧ n ≤ 999 then some n else none
   | none => none
 
+def c12Op (f : String) : Option C12.H1Op :=
+  match f.splitOn ":" with
+  | ["r", st, hb] => match st.toNat?, hexOr hb with
+    | some st, some hb => some (.relay st hb)
+    | _, _ => none
+  | ["b", ch] => (hexOr ch).map .body
+  | ["e", code, m] => match code.toNat?, hexOr m with
+    | some c, some m => some (.error c m)
+    | _, _ => none
+  | _ => none
+
 def c12Step (line : String) : String :=
   match fields line with
   | ["fmt", s, h] =>
@@ -37,6 +48,22 @@ def c12Step (line : String) : String :=
         (match r.1 with | some b => showBytes b | none => "nopage") ++ (if r.2 then " close" else " open")
       else "bad-op"
     | _, _, _ => "bad-op"
+  | ["h2err", cl, op, hs, code, h] =>
+    match code.toNat?, hexOr h with
+    | some c, some m =>
+      if (cl == "0" || cl == "1") && (op == "0" || op == "1") && (hs == "0" || hs == "1") then
+        match C12.h2ErrorReply (cl == "1") (op == "1") (hs == "1") c m with
+        | .nothing => "nothing"
+        | .reset k => s!"reset {k}"
+        | .page hd body => "page " ++ ",".intercalate (hd.map fun x => showBytes x.1 ++ ":" ++ showBytes x.2) ++ " " ++ showBytes body
+      else "bad-op"
+    | _, _ => "bad-op"
+  | ["h1seq", ops] =>
+    match (ops.splitOn ",").mapM c12Op with
+    | some ops =>
+      let c := C12.h1Run ops
+      s!"{showBytes c.wire} {c.pages} {if c.canWrite then "open" else "closed"}"
+    | none => "bad-op"
   | ["esc", h] =>
     match hexOr h with
     | some m => showBytes (C12.htmlEscape m)
